@@ -40,6 +40,9 @@ class TableMd5:
                     return outer.table[text]
                 outer.misses.append(text)
                 return hashlib.md5(data).hexdigest()
+
+            def digest(self_):
+                return bytes.fromhex(self_.hexdigest())
         return _H()
 
 
